@@ -46,11 +46,11 @@ Proof. intros sys H.
   revert A. apply forallb_Forall. intros e. apply state_normalisedb_spec. Qed.
 Definition povm_name_complete (e : string * list nat) : Prop :=
   let '(d, es) := povm_tbl (snd e) in let s := tf_sum es in (0 < tf_n s)%Z /\ tf_is_identity d s.
-Theorem named_povms_complete : forall sys, (sys < 5)%nat -> sys <> 2%nat -> Forall povm_name_complete (cat_povms sys).
-Proof. intros sys H Hne.
+Theorem named_povms_complete : forall sys, (sys < 5)%nat -> Forall povm_name_complete (cat_povms sys).
+Proof. intros sys H.
   assert (A : forallb (fun sys => forallb (fun e : string * list nat => let '(d, es) := povm_tbl (snd e) in let s := tf_sum es in
-                (0 <? tf_n s)%Z && tf_is_identityb d s) (cat_povms sys)) [0; 1; 3; 4]%nat = true) by (vm_compute; reflexivity).
-  rewrite forallb_forall in A. assert (Hin : In sys [0; 1; 3; 4]%nat) by (cbn; lia). specialize (A sys Hin).
+                (0 <? tf_n s)%Z && tf_is_identityb d s) (cat_povms sys)) (seq 0 5) = true) by (vm_cast_no_check (@eq_refl bool true)).
+  rewrite forallb_forall in A. specialize (A sys ltac:(apply in_seq; lia)).
   revert A. apply forallb_Forall. intros e. unfold povm_name_complete. destruct (povm_tbl (snd e)) as [d es]. cbv zeta.
   rewrite andb_true_iff, Z.ltb_lt. intros [X Y]. split; [exact X|now apply tf_is_identityb_spec]. Qed.
 
